@@ -73,6 +73,8 @@ func driveCache(backend string, r *emit.Rand, dir string, rounds int) {
 			i++
 			cfg.Cache.MaxCacheSize.Overwrite(bytesize.ByteSize(int64(3000 + 1000*(i%3))))
 			if i%3 == 0 {
+				// two changes in quick succession: the second arrives while the first is being applied
+				cfg.Cache.CleanupInterval.Overwrite(duration.Duration(time.Duration(2+i%3) * time.Millisecond))
 				cfg.Cache.CleanupInterval.Overwrite(duration.Duration(time.Duration(1+i%3) * time.Millisecond))
 			}
 			if i%4 == 0 {
@@ -112,6 +114,40 @@ func driveCache(backend string, r *emit.Rand, dir string, rounds int) {
 	close(stop)
 	time.Sleep(5 * time.Millisecond)
 	c.Destroy()
+}
+
+// driveRevalidate: every request finds its entry stale (default lifetime forced to ~0) and revalidates
+// it with a 304 while other requests are still writing their responses from the same entry.
+func driveRevalidate(backend string, r *emit.Rand, dir string, rounds int) {
+	e2elib.Quiet()
+	env, err := e2elib.Start(e2elib.Options{Backend: backend, Dir: dir, Shards: 2, Tune: func(cfg *config.Config) {
+		cfg.Proxy.CachePolicy.ForceDefaultMaxAge.Overwrite(true)
+		cfg.Proxy.CachePolicy.DefaultMaxAge.Overwrite(duration.Duration(time.Nanosecond))
+	}})
+	if err != nil {
+		panic(err)
+	}
+	big := bytes.Repeat([]byte("r"), 96*1024)
+	env.Origin.SetHandler(func(req e2elib.OriginRequest, n int) e2elib.Answer {
+		if req.Header.Get("If-None-Match") != "" {
+			return e2elib.NewAnswer(304, nil, `ETag: "v"`, "Cache-Control: max-age=60", "Vary: Accept-Encoding", fmt.Sprintf("Date: %s", time.Now().UTC().Format(time.RFC1123)))
+		}
+		return e2elib.NewAnswer(200, big, "Cache-Control: max-age=60", `ETag: "v"`, "Vary: Accept-Encoding")
+	})
+	var wg sync.WaitGroup
+	for w := 0; w < 16; w++ {
+		wg.Add(1)
+		rr := emit.NewRand(int64(r.U64() >> 1))
+		go func() {
+			defer wg.Done()
+			for i := 0; i < rounds/3+5; i++ {
+				env.DoPlain(env.PlainRequest("GET", fmt.Sprintf("/rv%d", rr.Intn(2)), nil, nil), "GET", 5*time.Second)
+			}
+		}()
+	}
+	wg.Wait()
+	time.Sleep(5 * time.Millisecond)
+	env.Close()
 }
 
 func driveProxy(backend string, tlsOn bool, r *emit.Rand, dir string, rounds int) {
@@ -208,7 +244,7 @@ func driveConfig(r *emit.Rand, rounds int) {
 	time.Sleep(5 * time.Millisecond)
 }
 
-var drivers = []string{"cache-memory", "cache-file", "proxy-memory-plain", "proxy-file-plain", "proxy-memory-connect", "config-event"}
+var drivers = []string{"cache-memory", "cache-file", "proxy-memory-plain", "proxy-file-plain", "proxy-memory-connect", "proxy-memory-revalidate", "proxy-file-revalidate", "config-event"}
 
 func runChild(name string, seed int64, tier, dir string) {
 	r := emit.NewRand(seed)
@@ -227,6 +263,10 @@ func runChild(name string, seed int64, tier, dir string) {
 		driveProxy("file", false, r, dir, rounds/2)
 	case "proxy-memory-connect":
 		driveProxy("memory", true, r, dir, rounds/4)
+	case "proxy-memory-revalidate":
+		driveRevalidate("memory", r, dir, rounds)
+	case "proxy-file-revalidate":
+		driveRevalidate("file", r, dir, rounds)
 	case "config-event":
 		driveConfig(r, rounds)
 	default:
